@@ -221,7 +221,7 @@ func recordRunner(args []string) int {
 				r := runners[rng.Intn(2)]
 				switch rng.Intn(10) {
 				case 0:
-					ops = append(ops, []any{"SetThis", r, []string{"m1", "m2", "nil"}[rng.Intn(3)]})
+					ops = append(ops, []any{"SetThis", r, []string{"m1", "m2", "m3", "nil"}[rng.Intn(4)]})
 				case 1:
 					ops = append(ops, []any{"SetThisValue", r, []string{"x", "$a"}[rng.Intn(2)], []any{"int", int64(rng.Intn(4) + 3)}})
 				case 2:
